@@ -74,7 +74,7 @@ def gen_cases(ctx):
                 p["num_machines"] = [k_hi, k_hi + rng.choice([0, 2, 4])]
                 if flag:
                     p["num_jobs"] = [k_hi + rng.choice([0, 1]), k_hi + 5]
-        if i % 12 == 11 and not conflict:
+        if i % 12 == 11 and not conflict and (not flag or i % 48 == 47):
             # many machines (two-digit ids, 16 and more), a count drawn from a range or fixed
             lo16 = rng.randint(16, 22)
             p["num_machines"] = rng.choice([[lo16, lo16 + rng.choice([2, 4, 8])], lo16, [lo16, lo16]])
@@ -208,6 +208,44 @@ def run_case(ctx, case):
             ctx.violation("c19_single_machine_operations_not_drawn_from_all_machines",
                           {"params": p, "instances_drawn": n7,
                            "log_probability_of_no_coincidence_under_uniform_draws": logp})
+    # two generators alive at the same time do not share counters: names and iteration budgets
+    ga = make(p)
+    first_name = ga.generate().name
+    gb = make(dict(p, seed=(p["seed"] + 1) % (2**31)))
+    gb.generate()
+    second_name = ga.generate().name
+    ctx.count("two_live_generators_checks")
+    if first_name == second_name:
+        ctx.violation("c19_name_reused", {"params": p, "names": [first_name, second_name],
+                                          "where": "another generator was constructed in between"})
+    if p["iteration_limit"] and case["seed"] % 3 == 0:
+        gc_, gd = make(p), make(p)
+        n_pairs = sum(1 for _ in zip(gc_, gd))
+        if n_pairs != p["iteration_limit"]:
+            ctx.violation("c19_iteration_count", {"params": p, "yielded": n_pairs,
+                                                  "where": "two generators iterated in lock-step (zip)"})
+    # a generator handed to the multi-instance environment keeps its configuration
+    if case["seed"] % 12 == 0 and kr[1] == 1 and not p["allow_recirculation"] \
+            and rng_pair(p["num_machines"])[1] <= 8 and rng_pair(p["num_jobs"])[1] <= 8:
+        from job_shop_lib.dispatching import DispatcherObserverConfig
+        from job_shop_lib.reinforcement_learning import MultiJobShopGraphEnv
+        from job_shop_lib.exceptions import ValidationError as _VE
+        ge = make(p)
+        try:
+            env = MultiJobShopGraphEnv(ge, [DispatcherObserverConfig("is_ready")])
+        except _VE:
+            env = None      # the env asks for a maximum-size instance the flag forbids: refused
+            ctx.count("multi_env_refused_the_generator")
+        ctx.count("generators_handed_to_the_multi_env")
+        for _ in range(3 if env is not None else 0):
+            env.reset()
+            for inst_e in (env.dispatcher.instance, ge.generate()):
+                errs, _, jobs = check_instance(ctx, p, inst_e, conflict=case.get("conflict", False))
+                if errs:
+                    ctx.violation("c19_instance_violates_requested_shape",
+                                  {"params": p, "errors": errs[:5], "instance": jobs,
+                                   "where": "after the generator was handed to MultiJobShopGraphEnv"})
+                    break
     # same seed, same parameters, built and then consumed -> identical sequence
     g2 = make(p)
     seq2 = [dump(g2.generate()) for _ in range(len(seq1))]
